@@ -7,7 +7,7 @@
     "keyed":b,"groups":[[cand]],"others":[cand],"bypass":[cand],"pats":[s],"drop":[id]}
         cand = [id, key|null];  "drop" = ids the filter callback rejects
         "base" = ids of the implementation's unfiltered result (the property's base set)
-        -> {"out":[id],"spec":[id],"hyp":b}
+        -> {"out":[id],"spec":[id],"hyp":b,"reach":{theorem: "in" | first failing hypothesis}}
            out  = model stage output (after the callback),
            spec = filterSpec over the de-duplicated candidates (after the callback),
            hyp  = the decidable hypotheses of the full-strength stage theorem hold for this input
@@ -47,6 +47,61 @@ def getCfg (j : Json) : Except String Cfg := do
   pure ⟨← getBool c "isCase", ← getBool c "isRe", ← getBool c "indexed", ← getBool c "ci"⟩
 
 def ids (l : List Cand) : Json := ofNatList (l.map (·.id))
+
+/-! Reach of the headline theorems on one query: "in", or the name of the first hypothesis that fails.
+    Only counted in the evidence; no verdict depends on it. -/
+
+def firstFail (checks : List (String × Bool)) : String :=
+  match checks.find? (fun c => !c.2) with
+  | some c => c.1
+  | none => "in"
+
+def hypDirectChecks (c : Cfg) (keyed : Bool) (groups : List (List Cand)) (pats : List Str) :
+    List (String × Bool) :=
+  [("a_visited_parent_lists_a_child_twice", decide (∀ g ∈ groups, g.Nodup)),
+   ("sibling_keys_not_unique_under_the_index",
+      decide (c.indexed = true → ∀ g ∈ groups, Spec.UniqueKeys c g)),
+   ("child_without_key_and_empty_pattern",
+      decide (keyed = true ∨ Spec.AllKeyed groups.flatten ∨ [] ∉ pats))]
+
+def ciChecks (c : Cfg) (others : List Cand) : List (String × Bool) :=
+  [("edif_identifier_without_index", decide (c.ci = true → c.indexed = true)),
+   ("edif_identifier_reached_through_second_stage", decide (c.ci = true → others = []))]
+
+def reach (variant : String) (c : Cfg) (keyed : Bool) (groups : List (List Cand))
+    (others bypass : List Cand) (pats : List Str) : List (String × String) :=
+  let matcher : List (String × String) :=
+    [("matches_spec", firstFail [("regex_outside_modelled_sublanguage",
+        !c.isRe || pats.all reSupported)]),
+     ("absolute_match", firstFail [("no_absolute_pattern", pats.any (fun p => c.abs p))]),
+     ("exact_glob_regex_agree", firstFail [("pattern_with_wildcard_or_regex_mode",
+        !c.isRe && pats.all (fun p => p.all (fun ch => !isWild ch)))]),
+     ("nocase_spec", firstFail [("is_case_true", !c.isCase)])]
+  let stage : List (String × String) :=
+    match variant with
+    | "pipeline" =>
+        let hd := hypDirectChecks c keyed groups pats
+        let hdOn := hypDirectChecks { c with indexed := true } keyed groups pats
+        [("stage_spec_direct", firstFail hd),
+         ("stage_spec_pipeline_split", firstFail hd),
+         ("stage_nodup", firstFail hd),
+         ("stage_pattern_order", firstFail hd),
+         ("stage_spec_pipeline", firstFail (hd ++ ciChecks c others)),
+         ("stage_union", firstFail (hd ++ ciChecks c others)),
+         ("stage_spec_pipeline_unindexed", firstFail (hd ++ [("index_answers", !c.indexed)])),
+         ("fast_eq_scan", firstFail ([("edif_identifier_key", !c.ci)] ++ hdOn))]
+    | "found" =>
+        [("stage_spec_found", firstFail
+            [("candidate_twice", decide others.Nodup),
+             ("netlist_without_key_and_empty_pattern", decide (Spec.AllKeyed others ∨ [] ∉ pats))])]
+    | "h" =>
+        [("stage_spec_h", "in"),
+         ("stage_spec_h_full", firstFail
+            [("elements_returned_without_name_search", bypass.isEmpty),
+             ("named_element_twice", decide others.Nodup)])]
+    | "none" => [("stage_spec_none", "in")]
+    | _ => []
+  matcher ++ stage
 
 def handle (st : Unit) (j : Json) : Except String (Unit × Json) := do
   let fn ← getStr j "fn"
@@ -91,8 +146,10 @@ def handle (st : Unit) (j : Json) : Except String (Unit × Json) := do
         | "h" => Spec.filterSpec c base pats
         | _ => Spec.filterSpec c base pats
       let spec := spec.filter inBase
+      let rj := Json.mkObj ((reach variant c keyed groups others bypass pats).map
+                  (fun kv => (kv.1, Json.str kv.2)))
       pure (st, Json.mkObj [("out", ids (applyFilter f out)), ("spec", ids (applyFilter f spec)),
-                            ("hyp", Json.bool hyp)])
+                            ("hyp", Json.bool hyp), ("reach", rj)])
   | _ => throw s!"unknown fn {fn}"
 
 end Spydr.Query.Drv
